@@ -128,9 +128,10 @@ Theorem scan_accepts_what_the_write_path_encodes : forall version sector r,
   (6 + length (r_key r) + 16 + (if has_expiry version then 8 else 0) <= BLOCK)%nat ->
   0 < N.of_nat (length (r_value r)) -> N.of_nat (length (r_value r)) <= MAX_VALUE_SIZE ->
   r_ts r < 2 ^ 64 -> r_exp r < 2 ^ 64 ->
-  forall c total st st4 jl rest',
+  forall c total st jl rest',
   c_ro c = false -> N.of_nat (length (r_key r)) <= MAX_KEY_SIZE ->
   sector + need_of version r <= total ->
+  forall st4,
   idx_find (r_key r) (rs_idx st) = None ->
   (if rs_last_end st <? sector then fs_release st (rs_last_end st) (sector - rs_last_end st) else Ok st) = Ok st4 ->
   scan_step c version total sector
@@ -142,15 +143,102 @@ Check scan_accepts_what_the_write_path_encodes : forall version sector r,
   (6 + length (r_key r) + 16 + (if has_expiry version then 8 else 0) <= BLOCK)%nat ->
   0 < N.of_nat (length (r_value r)) -> N.of_nat (length (r_value r)) <= MAX_VALUE_SIZE ->
   r_ts r < 2 ^ 64 -> r_exp r < 2 ^ 64 ->
-  forall c total st st4 jl rest',
+  forall c total st jl rest',
   c_ro c = false -> N.of_nat (length (r_key r)) <= MAX_KEY_SIZE ->
   sector + need_of version r <= total ->
+  forall st4,
   idx_find (r_key r) (rs_idx st) = None ->
   (if rs_last_end st <? sector then fs_release st (rs_last_end st) (sector - rs_last_end st) else Ok st) = Ok st4 ->
   scan_step c version total sector
     (chunk_blocks (encode_extent version sector r) (N.to_nat (need_of version r)) ++ rest') st jl =
   Ok (Advance (sector + need_of version r) (index_one c version sector r st4) jl).
 Print Assumptions scan_accepts_what_the_write_path_encodes.
+
+(* newest timestamp wins, whichever generation the scan meets first: an older generation of an
+   indexed key leaves the index as it is and is queued for retirement ... *)
+Theorem scan_retires_an_older_generation : forall version sector r,
+  0 < N.of_nat (length (r_key r)) ->
+  (6 + length (r_key r) + 16 + (if has_expiry version then 8 else 0) <= BLOCK)%nat ->
+  0 < N.of_nat (length (r_value r)) -> N.of_nat (length (r_value r)) <= MAX_VALUE_SIZE ->
+  r_ts r < 2 ^ 64 -> r_exp r < 2 ^ 64 ->
+  forall c total st jl rest',
+  c_ro c = false -> N.of_nat (length (r_key r)) <= MAX_KEY_SIZE ->
+  sector + need_of version r <= total ->
+  forall ex,
+  idx_find (r_key r) (rs_idx st) = Some ex -> r_ts r < e_ts ex ->
+  scan_step c version total sector
+    (chunk_blocks (encode_extent version sector r) (N.to_nat (need_of version r)) ++ rest') st jl =
+  Ok (Advance (sector + need_of version r)
+        (mkrs (rs_idx st) (rs_fs st) (rs_count st) (rs_mem st) (rs_disk st)
+              ((sector, need_of version r) :: rs_retired st) (rs_last_end st) (rs_ambiguous st)) jl).
+Proof. exact scan_step_retires_an_older_generation. Qed.
+Check scan_retires_an_older_generation : forall version sector r,
+  0 < N.of_nat (length (r_key r)) ->
+  (6 + length (r_key r) + 16 + (if has_expiry version then 8 else 0) <= BLOCK)%nat ->
+  0 < N.of_nat (length (r_value r)) -> N.of_nat (length (r_value r)) <= MAX_VALUE_SIZE ->
+  r_ts r < 2 ^ 64 -> r_exp r < 2 ^ 64 ->
+  forall c total st jl rest',
+  c_ro c = false -> N.of_nat (length (r_key r)) <= MAX_KEY_SIZE ->
+  sector + need_of version r <= total ->
+  forall ex,
+  idx_find (r_key r) (rs_idx st) = Some ex -> r_ts r < e_ts ex ->
+  scan_step c version total sector
+    (chunk_blocks (encode_extent version sector r) (N.to_nat (need_of version r)) ++ rest') st jl =
+  Ok (Advance (sector + need_of version r)
+        (mkrs (rs_idx st) (rs_fs st) (rs_count st) (rs_mem st) (rs_disk st)
+              ((sector, need_of version r) :: rs_retired st) (rs_last_end st) (rs_ambiguous st)) jl).
+Print Assumptions scan_retires_an_older_generation.
+
+(* ... and a generation at least as new replaces the indexed one (whose extent is released and
+   queued for retirement); the number of keys does not change *)
+Theorem scan_replaces_by_a_newer_generation : forall version sector r,
+  0 < N.of_nat (length (r_key r)) ->
+  (6 + length (r_key r) + 16 + (if has_expiry version then 8 else 0) <= BLOCK)%nat ->
+  0 < N.of_nat (length (r_value r)) -> N.of_nat (length (r_value r)) <= MAX_VALUE_SIZE ->
+  r_ts r < 2 ^ 64 -> r_exp r < 2 ^ 64 ->
+  forall c total st jl rest',
+  c_ro c = false -> N.of_nat (length (r_key r)) <= MAX_KEY_SIZE ->
+  sector + need_of version r <= total ->
+  forall ex st1 st4,
+  idx_find (r_key r) (rs_idx st) = Some ex -> e_ts ex <= r_ts r ->
+  let exn := extent_blocks version (N.of_nat (length (e_key ex))) (e_vlen ex) in
+  fs_release st (e_sector ex) exn = Ok st1 ->
+  let st3 := mkrs (rs_idx st1) (rs_fs st1) (rs_count st1)
+                  (wsub (rs_mem st1) (record_size c (N.of_nat (length (e_key ex))) (e_vlen ex)))
+                  (wsub (rs_disk st1) (exn * FEOX_BLOCK_SIZE))
+                  ((e_sector ex, exn) :: rs_retired st1) (rs_last_end st1) (rs_ambiguous st1) in
+  (if rs_last_end st3 <? sector then fs_release st3 (rs_last_end st3) (sector - rs_last_end st3) else Ok st3) = Ok st4 ->
+  exists st', scan_step c version total sector
+                (chunk_blocks (encode_extent version sector r) (N.to_nat (need_of version r)) ++ rest') st jl =
+              Ok (Advance (sector + need_of version r) st' jl) /\
+    idx_find (r_key r) (rs_idx st') =
+      Some (mkentry (r_key r) (r_ts r) (if has_expiry version then r_exp r else 0) (N.of_nat (length (r_value r))) sector) /\
+    rs_count st' = rs_count st4 /\ rs_last_end st' = sector + need_of version r.
+Proof. exact scan_step_replaces_by_a_newer_generation. Qed.
+Check scan_replaces_by_a_newer_generation : forall version sector r,
+  0 < N.of_nat (length (r_key r)) ->
+  (6 + length (r_key r) + 16 + (if has_expiry version then 8 else 0) <= BLOCK)%nat ->
+  0 < N.of_nat (length (r_value r)) -> N.of_nat (length (r_value r)) <= MAX_VALUE_SIZE ->
+  r_ts r < 2 ^ 64 -> r_exp r < 2 ^ 64 ->
+  forall c total st jl rest',
+  c_ro c = false -> N.of_nat (length (r_key r)) <= MAX_KEY_SIZE ->
+  sector + need_of version r <= total ->
+  forall ex st1 st4,
+  idx_find (r_key r) (rs_idx st) = Some ex -> e_ts ex <= r_ts r ->
+  let exn := extent_blocks version (N.of_nat (length (e_key ex))) (e_vlen ex) in
+  fs_release st (e_sector ex) exn = Ok st1 ->
+  let st3 := mkrs (rs_idx st1) (rs_fs st1) (rs_count st1)
+                  (wsub (rs_mem st1) (record_size c (N.of_nat (length (e_key ex))) (e_vlen ex)))
+                  (wsub (rs_disk st1) (exn * FEOX_BLOCK_SIZE))
+                  ((e_sector ex, exn) :: rs_retired st1) (rs_last_end st1) (rs_ambiguous st1) in
+  (if rs_last_end st3 <? sector then fs_release st3 (rs_last_end st3) (sector - rs_last_end st3) else Ok st3) = Ok st4 ->
+  exists st', scan_step c version total sector
+                (chunk_blocks (encode_extent version sector r) (N.to_nat (need_of version r)) ++ rest') st jl =
+              Ok (Advance (sector + need_of version r) st' jl) /\
+    idx_find (r_key r) (rs_idx st') =
+      Some (mkentry (r_key r) (r_ts r) (if has_expiry version then r_exp r else 0) (N.of_nat (length (r_value r))) sector) /\
+    rs_count st' = rs_count st4 /\ rs_last_end st' = sector + need_of version r.
+Print Assumptions scan_replaces_by_a_newer_generation.
 
 (* hence a data area packed with the encoded extents of records with pairwise distinct keys is
    scanned to exactly those records: the scan ends without error, and every record laid out is in
